@@ -86,6 +86,9 @@ def pred_overlay(ops, impl):
             exp = "none" if v is None else "some " + hx(v)
         elif t[0] == "range":
             exp = fmt(omap_range(stack[-1], unhex_opt(t[1]), unhex_opt(t[2]), t[3]))
+        elif t[0] in ("keys", "values"):
+            i = 0 if t[0] == "keys" else 1
+            exp = "[" + ",".join(hx(r[i]) for r in omap_range(stack[-1], unhex_opt(t[1]), unhex_opt(t[2]), t[3])) + "]"
         elif t[0] == "base-range":
             exp = "bad-op" if len(stack) == 1 else fmt(omap_range(stack[-2], unhex_opt(t[1]), unhex_opt(t[2]), t[3]))
         elif t[0] == "dump-root":
@@ -162,6 +165,10 @@ def pred_views(ops, impl):
             elif t[0] == "vrange":
                 win = {k[len(pfx):]: v for k, v in raw.items() if k.startswith(pfx)}
                 exp = fmt(omap_range(win, unhex_opt(t[3]), unhex_opt(t[4]), t[5]))
+            elif t[0] in ("vkeys", "vvalues"):
+                win = {k[len(pfx):]: v for k, v in raw.items() if k.startswith(pfx)}
+                i = 0 if t[0] == "vkeys" else 1
+                exp = "[" + ",".join(hx(r[i]) for r in omap_range(win, unhex_opt(t[3]), unhex_opt(t[4]), t[5])) + "]"
             else:
                 exp = "bad-op"
         if out != exp:
@@ -172,7 +179,7 @@ def pred_views(ops, impl):
 def nt_views(ops, impl):
     # non-trivial: a vrange whose result is non-empty while the root holds keys outside the window
     for op, out in zip(ops, impl):
-        if op.startswith("vrange") and out not in ("[]", "panic"):
+        if op.startswith(("vrange", "vkeys", "vvalues")) and out not in ("[]", "panic"):
             return True
     return False
 
